@@ -211,6 +211,11 @@ fn scalar<T: Clone + PartialEq + Debug + 'static>(g: &mut Grid, tname: &str, dom
                 r_eq(&ua2, &ub2, &mut h);
                 vv.dbg = None;
                 see_through(g, "ArcUnion<_,T> (second)", &case, &h, &vv, same_alloc, reflexive);
+                // one allocation held under both variants of an ArcUnion<T, T>: never equal, whatever the value
+                let (uf, us): (ArcUnion<T, T>, ArcUnion<T, T>) = (ArcUnion::from_first(a.clone()), ArcUnion::from_second(a.clone()));
+                if uf == us || !(uf != us) {
+                    g.fail("union-variants-equal", &case, format!("ArcUnion<T,T>: First and Second over the same allocation compare == {} / != {}", uf == us, uf != us));
+                }
                 // union formatting: a function of (variant, value's Debug), independent of the address
                 let c = Arc::new(x.clone());
                 let uc: ArcUnion<T, u8> = ArcUnion::from_first(c);
@@ -374,6 +379,14 @@ fn floats(g: &mut Grid) {
                     see_through(g, "ThinArc<f64,f64>", &case, &h, &v, false, false);
                     tuple_order(g, "ThinArc<f64,f64>", &case, &h, &t);
                     coherence(g, &format!("ThinArc<f64,f64> {}", case), &h, false);
+                    // the protected view of the very same allocations
+                    let (pa, pb) = (Arc::protected_from_thin(a.clone()), Arc::protected_from_thin(b.clone()));
+                    let h = partial(&pa, &pb);
+                    tuple_order(g, "Arc<HeaderSliceWithLengthProtected<f64,f64>>", &case, &h, &t);
+                    coherence(g, &format!("Arc<HeaderSliceWithLengthProtected<f64,f64>> {}", case), &h, false);
+                    if h.eq != t.eq {
+                        g.fail("tuple-eq", &case, format!("Arc<Protected> == is {:?}, tuples give {:?}", h.eq, t.eq));
+                    }
                 }
             }
         }
